@@ -328,28 +328,43 @@ def context_class(Ref, prefix_pdus) -> str:
     return 'after_stray_or_broken_packets'
 
 
-def irregular_class(alpha, h2) -> str:
-    """Class of the first packet after the last untouched start packet that is not
-    the next fragment of that start's message."""
-    last_start = None
-    for j in range(len(h2) - 1, -1, -1):
-        t, p = alpha[h2[j]]
-        if t[0] == 'f' and len(p) >= 1 and (p[0] >> 2) & 3 == START:
-            last_start = j
-            break
-    if last_start is None:
-        return 'no_start_packet'
-    m0 = alpha[h2[last_start]][0][1]
-    kk = 1
-    for j in range(last_start + 1, len(h2)):
-        t = alpha[h2[j]][0]
-        if t == ('f', m0, kk):
-            kk += 1
-            continue
-        if t[0] in ('wl', 'wt', 'empty', 'short') or (t[0] == 'f' and t[1] != m0 and t[2] > 0):
-            return 'stray_packet_inside_message'
-        return 'misplaced_fragment_inside_message'
-    return 'packets_before_start'
+def content_class(own_parts, delivered: bytes) -> str:
+    """How a delivered payload that equals no sent message relates to the fragments
+    of the message with the same transaction label."""
+    parts = [p for p in own_parts if p]
+
+    def build(rest, start, strict):
+        # strict: parts may only be taken in order, each at most once
+        if not rest:
+            return True
+        for i in range(start if strict else 0, len(parts)):
+            if rest.startswith(parts[i]) and build(rest[len(parts[i]):], i + 1, strict):
+                return True
+        return False
+
+    if len(delivered) <= 64 * max(1, len(parts)):
+        if build(delivered, 0, True):
+            return 'own_fragments_missing'
+        if len(delivered) <= sum(len(p) for p in parts) * 3 and build(delivered, 0, False):
+            return 'own_fragments_duplicated_or_reordered'
+    return 'foreign_bytes_included'
+
+
+def ignored_since_initial(Real, Ref, pdus) -> int:
+    """number of packets the ignore-policy reference assembler ignored since the real
+    assembler was last in its initial state"""
+    real, ref = Real(), Ref(('ignore', 'ignore'))
+    init = real.canon()
+    ignored = 0
+    for p in pdus:
+        before = ref.cur
+        out = ref.feed(p)
+        if ref.cur == before and not out and not (len(p) >= 1 and (p[0] >> 2) & 3 in (SINGLE, START) and ref.cur is not None):
+            ignored += 1
+        real.feed(p)
+        if real.canon() == init:
+            ignored = 0
+    return ignored
 
 
 class _FirstPerSignature:
@@ -476,12 +491,19 @@ def bfs(proto: str, msgs, depth: int, max_states: int | None = None):
                         elif any(g in ro for ro in ref_out):
                             counters['excused_by_reference'] += 1
                         else:
-                            via = irregular_class(alpha, h2)
+                            own = [m for m in msgs if m['key'][0] == g[0]]
+                            hdr = (3, 1) if proto == 'avdtp' else (4, 1)
+                            parts = [] if not own else [f[hdr[0]:] if i == 0 else f[hdr[1]:] for i, f in enumerate(own[0]['frags'])]
+                            cls = content_class(parts, g[-1]) if len(own) == 1 and len(parts) > 1 else 'foreign_bytes_included'
+                            # the pdu just fed completed the message, so look at the state before it reset
+                            ign = ignored_since_initial(Real, Ref, [alpha[i][1] for i in hist]) > 0
                             viol.append((
                                 'corrupt_delivered',
-                                {'proto': proto, 'kind': 'message_from_broken_sequence_delivered', 'via': via},
-                                f'{proto} assembler delivered a message that no peer sent ({len(g[-1])} payload bytes, label {g[0]}) '
-                                f'out of a broken fragment sequence (first irregular packet: {via}); no reference policy delivers it',
+                                {'proto': proto, 'kind': 'message_from_broken_sequence_delivered', 'delivered': cls,
+                                 'after_ignored_packets': ign},
+                                f'{proto} assembler delivered a message that no peer sent ({len(g[-1])} payload bytes, label {g[0]}: {cls}'
+                                f'{", after packets that belong to no message" if ign else ""}) out of a broken fragment sequence; '
+                                f'no reference policy delivers it',
                                 h2,
                             ))
                     if len(got) > 1:
